@@ -258,6 +258,92 @@ where
         + Sync
         + 'static,
 {
+    // A rewind may only discard events that the sender merged
+    // into the patch; events appended by another client after
+    // the sender computed the merge must not be lost
+    if let Some(commit) = &req.commit {
+        let (discarded, head) = match &req.log_type {
+            EventLogType::Identity => {
+                let log = storage.identity_log().await?;
+                let event_log = log.read().await;
+                (
+                    event_log.diff_records(Some(commit)).await?,
+                    event_log
+                        .tree()
+                        .head()
+                        .map_err(sos_backend::Error::from)?,
+                )
+            }
+            EventLogType::Account => {
+                let log = storage.account_log().await?;
+                let event_log = log.read().await;
+                (
+                    event_log.diff_records(Some(commit)).await?,
+                    event_log
+                        .tree()
+                        .head()
+                        .map_err(sos_backend::Error::from)?,
+                )
+            }
+            EventLogType::Device => {
+                let log = storage.device_log().await?;
+                let event_log = log.read().await;
+                (
+                    event_log.diff_records(Some(commit)).await?,
+                    event_log
+                        .tree()
+                        .head()
+                        .map_err(sos_backend::Error::from)?,
+                )
+            }
+            #[cfg(feature = "files")]
+            EventLogType::Files => {
+                let log = storage.file_log().await?;
+                let event_log = log.read().await;
+                (
+                    event_log.diff_records(Some(commit)).await?,
+                    event_log
+                        .tree()
+                        .head()
+                        .map_err(sos_backend::Error::from)?,
+                )
+            }
+            EventLogType::Folder(id) => {
+                let log = storage.folder_log(id).await?;
+                let event_log = log.read().await;
+                (
+                    event_log.diff_records(Some(commit)).await?,
+                    event_log
+                        .tree()
+                        .head()
+                        .map_err(sos_backend::Error::from)?,
+                )
+            }
+        };
+        let incoming = req
+            .patch
+            .iter()
+            .map(|record| *record.commit())
+            .collect::<std::collections::HashSet<_>>();
+        if discarded
+            .iter()
+            .any(|record| !incoming.contains(record.commit()))
+        {
+            tracing::warn!(
+                num_records = ?discarded.len(),
+                "events_patch::rewind_would_discard_unmerged_events");
+            return Ok((
+                PatchResponse {
+                    checked_patch: CheckedPatch::Conflict {
+                        head,
+                        contains: None,
+                    },
+                },
+                MergeOutcome::default(),
+            ));
+        }
+    }
+
     let (checked_patch, outcome, records) = match &req.log_type {
         EventLogType::Identity => {
             let patch = Patch::<WriteEvent>::new(req.patch);
